@@ -16,12 +16,33 @@ pub struct Case {
     pub cuts: Vec<usize>,
 }
 
+/// the same comparison for the further target types of C07 (tuples, Options, maps, sequences of
+/// Options, IgnoredAny, ...), compared through their Debug rendering
+#[derive(Clone, Debug, Serialize, Deserialize, PartialEq)]
+pub struct ExtraCase {
+    pub target: super::c07::Target,
+    pub input: String,
+    pub cuts: Vec<usize>,
+}
+
+pub fn check_extra(c: &ExtraCase) -> Verdict {
+    let cuts = super::c02::normalise_cuts(c.input.as_bytes(), &c.cuts);
+    let a = super::c07::try_de_debug(&c.target, &c.input, None);
+    let b = super::c07::try_de_debug(&c.target, &c.input, Some(cuts.clone()));
+    let interesting = c.input.contains("<![CDATA[") || c.input.contains("<!--") || c.input.contains("<?") || c.input.contains("<!DOCTYPE") || c.input.contains('&') || c.input.contains("nil");
+    match (&a, &b) {
+        (Ok(x), Ok(y)) if x == y => Verdict::pass(interesting).class("extra-target-both-ok"),
+        (Err(_), Err(_)) => Verdict::pass(interesting).class("extra-target-both-err"),
+        _ => Verdict::fail(format!("target {:?}: from_str gives {:?}, from_reader (cuts {:?}) gives {:?} | input {:?}", c.target, a, cuts, b, c.input)),
+    }
+}
+
 pub fn info() -> PropInfo {
     PropInfo {
         id: "C14",
         run,
         replay,
-        rule: "cases = (family type, UTF-8 document, cut set). Documents: valid ones (serialized generated values), token-level mutations of them and token soup (C07's generators), and valid documents after C15's information-preserving rewrites (text split by CDATA/comments/PIs, references, re-quoted attributes, unknown content). Chunkings: piece sizes 1, 2, 3, 7, whole, and random cut sets through the harness-owned BufRead. Oracle: from_str and from_reader either both fail or both succeed with equal values (error values are not compared). Non-trivial = the document contains mixed text/CDATA, a comment/PI/DOCTYPE, a reference or an element the type skips (i.e. the deserializer has to merge text, skip subtrees or unescape), or the result is Err after at least three tokens.",
+        rule: "cases = (target type, UTF-8 document, cut set); targets are the 18 family types (values compared with ==) and the 26 further targets of C07 (compared through their Debug rendering). Documents: valid ones (serialized generated values), token-level mutations of them and token soup (C07's generators), and valid documents after C15's information-preserving rewrites (text split by CDATA/comments/PIs, references, re-quoted attributes, unknown content). Chunkings: piece sizes 1, 2, 3, 7, whole, and random cut sets through the harness-owned BufRead. Oracle: from_str and from_reader either both fail or both succeed with equal values (error values are not compared). Non-trivial = the document contains mixed text/CDATA, a comment/PI/DOCTYPE, a reference or an element the type skips (i.e. the deserializer has to merge text, skip subtrees or unescape), or the result is Err after at least three tokens.",
         assumptions: &["the document does not declare a non-UTF-8 encoding", "when the document starts with a byte-order mark the first piece has at least 4 bytes (the sniff looks only at the first piece, cf. C02)"],
         level: "exploration",
         variants: &["full", "min"],
@@ -135,6 +156,21 @@ fn run(ctx: &Ctx) {
         }))
     };
     ctx.run_proptest_with("valid-documents-with-well-formed-noise", ctx.tier.pick(800_000, 8_000_000), noisy, check);
+    // the further target types of C07, on its base documents with edits (incl. attribute injection)
+    let extra = || {
+        Box::new((prop::sample::select(super::c07::ALL_EXTRA.to_vec()), any::<u16>(), prop::collection::vec(edit_strategy(), 0..4), prop::collection::vec((any::<u16>(), any::<u16>()), 0..3), cuts_strategy()).prop_map(|(target, base, edits, noise, (sel, rnd))| {
+            let mut doc = apply_edits(super::c07::EXTRA_DOCS[scale(base, super::c07::EXTRA_DOCS.len())], &edits);
+            for (at, what) in &noise {
+                let pos = scale(*at, doc.len() + 1);
+                if doc.is_char_boundary(pos) {
+                    doc.insert_str(pos, NOISE[scale(*what, NOISE.len())]);
+                }
+            }
+            let cuts = make_cuts(doc.len(), sel, &rnd);
+            ExtraCase { target, input: doc, cuts }
+        }))
+    };
+    ctx.run_proptest_with("extra-targets", ctx.tier.pick(600_000, 6_000_000), extra, check_extra);
     let soup = || {
         Box::new((prop::collection::vec(any::<u16>(), 0..14), prop::sample::select(ALL_TYPES.to_vec()), cuts_strategy()).prop_map(|(ws, ty, (sel, rnd))| {
             let input = ws.iter().map(|w| VOCAB[scale(*w, VOCAB.len())]).collect::<Vec<_>>().concat();
@@ -145,7 +181,11 @@ fn run(ctx: &Ctx) {
     ctx.run_proptest_with("token-soup", ctx.tier.pick(400_000, 5_000_000), soup, check);
 }
 
-fn replay(_stage: &str, case: &Value) -> Result<Verdict, String> {
+fn replay(stage: &str, case: &Value) -> Result<Verdict, String> {
+    if stage == "extra-targets" {
+        let c: ExtraCase = serde_json::from_value(case.clone()).map_err(|e| e.to_string())?;
+        return Ok(check_extra(&c));
+    }
     let c: Case = serde_json::from_value(case.clone()).map_err(|e| e.to_string())?;
     Ok(check(&c))
 }
